@@ -10,6 +10,8 @@ namespace Sqlair.Cache
 inductive HOp where
   | newS | newD
   | run (s d shape : Nat)
+  | mkq (q s d shape : Nat)      -- DB.Query: build a Query and keep it
+  | runq (q : Nat)               -- run a Query built earlier
   | dropS (s : Nat) | dropD (d : Nat)
   | gc
 deriving Repr, Inhabited
@@ -42,6 +44,10 @@ def runHistory : List HOp → St → Nat → List Segment → Nat → St × List
     | .run s d shape =>
       let st := run st [.query t s d shape, .lookup t, .prepare t, .insert t, .exec t none]
       runHistory rest st mark segs (t + 1)
+    | .mkq q s d shape => runHistory rest ((step st (.query (1000 + q) s d shape)).getD st) mark segs t
+    | .runq q =>
+      let t' := 1000 + q
+      runHistory rest (run st [.lookup t', .prepare t', .insert t', .exec t' none]) mark segs t
     | .dropS s => runHistory rest ((step st (.dropS s)).getD st) mark segs t
     | .dropD d => runHistory rest ((step st (.dropD d)).getD st) mark segs t
     | .gc =>
